@@ -40,7 +40,7 @@ type concObs struct {
 
 func concInitTree() *treefs.Node {
 	t := treefs.NewDir()
-	for _, o := range []treefs.Op{{Kind: "WriteFile", P: "s", Data: "SRC"}, {Kind: "WriteFile", P: "sd/k", Data: "K"}, {Kind: "MkdirAll", P: "n0"}} {
+	for _, o := range []treefs.Op{{Kind: "WriteFile", P: "s", Data: "SRC"}, {Kind: "WriteFile", P: "sd/k", Data: "K"}, {Kind: "MkdirAll", P: "n0"}, {Kind: "WriteFile", P: "n0/r", Data: "R"}, {Kind: "WriteFile", P: "n0/r2", Data: "R2"}} {
 		if e := treefs.Apply(t, o); e.After != nil {
 			t = e.After
 		}
@@ -61,6 +61,12 @@ func concOps() []treefs.Op {
 		{Kind: "WriteFile", P: "a/v", Data: "V", View: []string{"n0"}},
 		{Kind: "MkdirAll", P: "a/w", View: []string{"n0"}},
 		{Kind: "WriteFile", P: "n0/a/u", Data: "U"},
+		// a listing / a read while a sibling entry is removed or created (the listed directory and the read
+		// file exist throughout, so both succeed in every order)
+		{Kind: "ReadDir", P: "n0"},
+		{Kind: "Remove", P: "n0/r"},
+		{Kind: "ReadFile", P: "n0/r2"},
+		{Kind: "Lstat", P: "n0/r2"},
 	}
 }
 
@@ -139,11 +145,13 @@ func sequentialOutcomes(ops []treefs.Op) (keys map[string]bool, ok bool) {
 			t := concInitTree()
 			for _, i := range idx {
 				e := relax(t, ops[i], treefs.Apply(t, ops[i]))
-				if e.Class != treefs.MustOK || e.After == nil {
+				if e.Class != treefs.MustOK {
 					ok = false
 					return
 				}
-				t = e.After
+				if e.After != nil { // (nil for pure reads)
+					t = e.After
+				}
 			}
 			keys[fsx.FlatKey(t.Flat())] = true
 			return
@@ -175,7 +183,7 @@ func concJudge(sp ConcSpec, o *concObs) func(x *explore.Exec) *explore.Verdict {
 				return &explore.Verdict{Kind: "conc/panic", Clause: "no panic", Detail: fmt.Sprintf("%s panicked: %s", fsx.OpString(sp.Ops[i]), r.Panic)}
 			}
 			if r.Err != "" {
-				return &explore.Verdict{Kind: "conc/creation-failed/" + sp.Ops[i].Kind, Clause: "on every history of operations whose preconditions are met the disk filespace returns the same results as the in-memory filespace",
+				return &explore.Verdict{Kind: "conc/operation-failed/" + sp.Ops[i].Kind, Clause: "on every history of operations whose preconditions are met the disk filespace returns the same results as the in-memory filespace",
 					Detail: fmt.Sprintf("%s failed on the disk filespace although its preconditions hold in every order of the concurrent operations (the in-memory filespace succeeds): %s", fsx.OpString(sp.Ops[i]), r.Err)}
 			}
 		}
